@@ -42,6 +42,7 @@ pub struct HistSpec {
     pub dump_after_error: bool,
     pub final_dump: bool,
     pub workers: Option<usize>,
+    pub script_uncertain: bool,
     pub level: &'static str,
 }
 
@@ -74,6 +75,7 @@ impl Default for HistSpec {
             dump_after_error: true,
             final_dump: true,
             workers: None,
+            script_uncertain: true,
             level: "exploration",
         }
     }
@@ -140,6 +142,7 @@ pub fn run(spec: &HistSpec, tier: Tier, seed: u64, replay: Option<Value>) -> i32
             lenient_scripts: spec.lenient_scripts,
             final_dump: spec.final_dump,
             fresh_server_if_blocking: true,
+            script_uncertain: spec.script_uncertain,
         };
         runner::run_script(wk, steps, &o)
     };
